@@ -84,19 +84,51 @@ theorem derivativeGeneric_rational_runtime (o : Obj K) (tol : K) (params : List 
   rw [if_neg h1]
   simp only [hps, hr, if_true, hd]
 
-/-- Rational objects, total order ≤ 1: every entry is the first-order quotient rule applied to the
-    entries of the two homogeneous jets. -/
-theorem derivativeGeneric_rational_get (o : Obj K) (tol : K) (params : List (List K)) (derivs : List ℕ)
-    (above : List Bool) (tensor : Bool) (r : Tensor K) (hr : o.rational = true)
+/-- Rational objects, total order 0: every entry is the homogeneous jet (from the requested sides)
+    divided by its weight — the evaluated point. -/
+theorem derivativeGeneric_rational_zero_get (o : Obj K) (tol : K) (params : List (List K)) (derivs : List ℕ)
+    (above : List Bool) (tensor : Bool) (r : Tensor K) (hr : o.rational = true) (h0 : derivs.sum = 0)
     (h : o.derivativeGeneric tol params derivs above tensor = .ok r) :
-    derivs.sum ≤ 1 ∧ ∃ ps, o.validateDomain tol params = .ok ps ∧
+    ∃ ps, o.validateDomain tol params = .ok ps ∧
+      ∀ pI c, c < o.dimension →
+        pI < (o.homJet tol ps derivs above tensor).size / o.ncomp →
+        r.get (pI * o.dimension + c) =
+          (o.homJet tol ps derivs above tensor).get (pI * o.ncomp + c) /
+            (o.homJet tol ps derivs above tensor).get (pI * o.ncomp + o.dimension) := by
+  unfold derivativeGeneric at h
+  split at h
+  · exact absurd h (by simp)
+  · split at h
+    · exact absurd h (by simp)
+    · rename_i ps hps
+      have hn : ¬ derivs.sum > 1 := by omega
+      simp only [hr, if_true, hn, if_false, h0] at h
+      refine ⟨ps, hps, ?_⟩
+      intro pI c hc hpI
+      injection h with h
+      rw [← h]
+      have hlt : pI * o.dimension + c <
+          (o.homJet tol ps derivs above tensor).size / o.ncomp * o.dimension := by
+        calc pI * o.dimension + c < pI * o.dimension + o.dimension := by omega
+          _ = (pI + 1) * o.dimension := by ring
+          _ ≤ _ := Nat.mul_le_mul_right _ hpI
+      rw [Tensor.get_ofFn _ _ _ _ (by exact hlt)]
+      simp only [idx_div pI o.dimension c hc, idx_mod pI o.dimension c hc]
+      rfl
+
+/-- Rational objects, total order 1: every entry is the first-order quotient rule applied to the
+    entries of the two homogeneous jets, BOTH taken from the requested sides. -/
+theorem derivativeGeneric_rational_get (o : Obj K) (tol : K) (params : List (List K)) (derivs : List ℕ)
+    (above : List Bool) (tensor : Bool) (r : Tensor K) (hr : o.rational = true) (h1 : derivs.sum ≠ 0)
+    (h : o.derivativeGeneric tol params derivs above tensor = .ok r) :
+    derivs.sum = 1 ∧ ∃ ps, o.validateDomain tol params = .ok ps ∧
       ∀ pI c, c < o.dimension →
         pI < (o.homJet tol ps derivs above tensor).size / o.ncomp →
         r.get (pI * o.dimension + c) =
           RatDeriv.first
-            ((o.homJet tol ps (derivs.map fun _ => 0) (above.map fun _ => true) tensor).get (pI * o.ncomp + c))
+            ((o.homJet tol ps (above.map fun _ => 0) above tensor).get (pI * o.ncomp + c))
             ((o.homJet tol ps derivs above tensor).get (pI * o.ncomp + c))
-            ((o.homJet tol ps (derivs.map fun _ => 0) (above.map fun _ => true) tensor).get (pI * o.ncomp + o.dimension))
+            ((o.homJet tol ps (above.map fun _ => 0) above tensor).get (pI * o.ncomp + o.dimension))
             ((o.homJet tol ps derivs above tensor).get (pI * o.ncomp + o.dimension)) := by
   unfold derivativeGeneric at h
   split at h
@@ -104,10 +136,10 @@ theorem derivativeGeneric_rational_get (o : Obj K) (tol : K) (params : List (Lis
   · split at h
     · exact absurd h (by simp)
     · rename_i ps hps
-      simp only [hr, if_true] at h
-      split at h
-      · exact absurd h (by simp)
-      · rename_i hsum
+      by_cases hsum : derivs.sum > 1
+      · simp only [hr, if_true, hsum] at h
+        exact absurd h (by simp)
+      · simp only [hr, if_true, hsum, if_false, h1] at h
         refine ⟨by omega, ps, hps, ?_⟩
         intro pI c hc hpI
         injection h with h
@@ -130,10 +162,10 @@ theorem curveDerivativeRational_get_two (o : Obj K) (tol : K) (ts : List K) (abo
     (pI c : ℕ) (hc : c < o.dimension) (hpI : pI < ts.length) :
     (o.curveDerivativeRational tol ts 2 above).get (pI * o.dimension + c) =
       RatDeriv.curveD2
-        ((o.curveJet tol ts 0 true).get (pI * o.ncomp + c))
+        ((o.curveJet tol ts 0 above).get (pI * o.ncomp + c))
         ((o.curveJet tol ts 1 above).get (pI * o.ncomp + c))
         ((o.curveJet tol ts 2 above).get (pI * o.ncomp + c))
-        ((o.curveJet tol ts 0 true).get (pI * o.ncomp + o.dimension))
+        ((o.curveJet tol ts 0 above).get (pI * o.ncomp + o.dimension))
         ((o.curveJet tol ts 1 above).get (pI * o.ncomp + o.dimension))
         ((o.curveJet tol ts 2 above).get (pI * o.ncomp + o.dimension)) := by
   unfold curveDerivativeRational
@@ -151,11 +183,11 @@ theorem curveDerivativeRational_get_three (o : Obj K) (tol : K) (ts : List K) (a
     (pI c : ℕ) (hc : c < o.dimension) (hpI : pI < ts.length) :
     (o.curveDerivativeRational tol ts 3 above).get (pI * o.dimension + c) =
       RatDeriv.curveD3
-        ((o.curveJet tol ts 0 true).get (pI * o.ncomp + c))
+        ((o.curveJet tol ts 0 above).get (pI * o.ncomp + c))
         ((o.curveJet tol ts 1 above).get (pI * o.ncomp + c))
         ((o.curveJet tol ts 2 above).get (pI * o.ncomp + c))
         ((o.curveJet tol ts 3 above).get (pI * o.ncomp + c))
-        ((o.curveJet tol ts 0 true).get (pI * o.ncomp + o.dimension))
+        ((o.curveJet tol ts 0 above).get (pI * o.ncomp + o.dimension))
         ((o.curveJet tol ts 1 above).get (pI * o.ncomp + o.dimension))
         ((o.curveJet tol ts 2 above).get (pI * o.ncomp + o.dimension))
         ((o.curveJet tol ts 3 above).get (pI * o.ncomp + o.dimension)) := by
@@ -171,12 +203,12 @@ theorem curveDerivativeRational_get_three (o : Obj K) (tol : K) (ts : List K) (a
   rfl
 
 /-- Homogeneous jet of a surface on the tensor grid: `evaluate([dNus[a], dNvs[c]], self.controlpoints, True)`. -/
-def surfJet (o : Obj K) (tol : K) (us vs : List K) (fr : Bool) (a c : ℕ) : Tensor K :=
-  contractGrid [basisMat (o.basis 0) tol us a fr, basisMat (o.basis 1) tol vs c fr] o.cps
+def surfJet (o : Obj K) (tol : K) (us vs : List K) (frU frV : Bool) (a c : ℕ) : Tensor K :=
+  contractGrid [basisMat (o.basis 0) tol us a frU, basisMat (o.basis 1) tol vs c frV] o.cps
 
 /-- All ten partial derivatives (total order ≤ 3) of homogeneous component `cc` at grid point `pI`. -/
-def surfJetAt (o : Obj K) (tol : K) (us vs : List K) (fr : Bool) (pI cc : ℕ) : RatDeriv.SurfJet K :=
-  let g (a c : ℕ) := (o.surfJet tol us vs fr a c).get (pI * o.ncomp + cc)
+def surfJetAt (o : Obj K) (tol : K) (us vs : List K) (frU frV : Bool) (pI cc : ℕ) : RatDeriv.SurfJet K :=
+  let g (a c : ℕ) := (o.surfJet tol us vs frU frV a c).get (pI * o.ncomp + cc)
   { f00 := g 0 0, f10 := g 1 0, f01 := g 0 1, f11 := g 1 1, f20 := g 2 0, f02 := g 0 2,
     f21 := g 2 1, f12 := g 1 2, f30 := g 3 0, f03 := g 0 3 }
 
@@ -193,13 +225,13 @@ theorem surfD_order_two_congr (n n' W W' : RatDeriv.SurfJet K) (du dv : ℕ) (h2
       RatDeriv.Surf.H1, RatDeriv.Surf.G1, RatDeriv.Surf.dH1du, RatDeriv.Surf.G2, RatDeriv.Surf.dH2dv,
       RatDeriv.Surf.H2, a0, a1, a2, a3, a4, a5, b0, b1, b2, b3, b4, b5]
 
-/-- `Surface.derivative`, rational, total order 2 or 3, tensor grid, `d` a tuple: the call succeeds and
+/-- `Surface.derivative`, rational, total order 2 or 3, tensor grid: the call succeeds and
     every entry is `RatDeriv.surfD` of the jets of numerator component and weight. -/
-theorem surfaceDerivativeRational_get (o : Obj K) (tol : K) (us vs : List K) (du dv : ℕ) (fr : Bool)
+theorem surfaceDerivativeRational_get (o : Obj K) (tol : K) (us vs : List K) (du dv : ℕ) (frU frV : Bool)
     (h2 : 2 ≤ du + dv) (h3 : du + dv ≤ 3) :
-    ∃ r, o.surfaceDerivativeRational tol us vs du dv fr true true = .ok r ∧
+    ∃ r, o.surfaceDerivativeRational tol us vs du dv frU frV true = .ok r ∧
       ∀ pI c, c < o.dimension → pI < us.length * vs.length →
-        RatDeriv.surfD (o.surfJetAt tol us vs fr pI c) (o.surfJetAt tol us vs fr pI o.dimension) du dv
+        RatDeriv.surfD (o.surfJetAt tol us vs frU frV pI c) (o.surfJetAt tol us vs frU frV pI o.dimension) du dv
           = some (r.get (pI * o.dimension + c)) := by
   unfold surfaceDerivativeRational
   simp only [Bool.not_true, Bool.false_eq_true, if_false]
@@ -215,7 +247,7 @@ theorem surfaceDerivativeRational_get (o : Obj K) (tol : K) (us vs : List K) (du
     intro n W
     have := (RatDeriv.surfD_isSome_iff (n := n) (W := W) du dv).mpr ⟨by omega, h3⟩
     exact Option.isSome_iff_exists.mp this
-  obtain ⟨y, hy⟩ := hsome (o.surfJetAt tol us vs fr pI c) (o.surfJetAt tol us vs fr pI o.dimension)
+  obtain ⟨y, hy⟩ := hsome (o.surfJetAt tol us vs frU frV pI c) (o.surfJetAt tol us vs frU frV pI o.dimension)
   rw [hy]
   congr 1
   by_cases h : du + dv > 2
